@@ -4,6 +4,7 @@ CONSTANTS
   MaxVar = 1
   NCtx = 0
   Nesting = TRUE
+  TaskAllow = FALSE
   AtomicLaunch = FALSE
   HookKinds = {"none"}
 SPECIFICATION Spec
